@@ -28,7 +28,7 @@ CFG = {
     "modelled": ["tera.rs resolve_template_name, get_template_priority, finalize_templates (1st loop, include walk, reference "
                  "validation, orphan blocks, both lineage passes), add_raw_templates",
                  "template.rs find_parents, check_include_cycles (with the D10 repair: includes of ancestors are followed), find_block_cycle (D13 repair: a block lineage must not lead back to itself)",
-                 "vm/interpreter.rs: which chunk runs for render / Include / RenderBlock / super() / component call, component depth limit"],
+                 "vm/interpreter.rs: which chunk runs for render / Include (root ancestor's chunk, D9 repaired) / RenderBlock / super() / component call, component depth limit"],
     "assumptions": ["implementation == model only on the sets enumerated by the harness",
                     "control flow inside a chunk is abstracted: every instruction of a chunk is taken to run once, in order "
                     "(the termination theorem bounds the recursion depth for ANY subset/repetition of calls)",
